@@ -97,6 +97,61 @@ theorem fp_unmarshalWork_Unmarshal_expected : fp_unmarshalWork_Unmarshal = "969d
 
 theorem fp_AppendFieldToCol_expected : fp_AppendFieldToCol = "a4cc75ae679093de" := by rfl
 
+
+/-! behind the parser (Store.lean, Split.lean) -/
+
+theorem fp_serveWrite_expected : fp_serveWrite = "5aa5f82307894c5c" := by rfl
+
+theorem fp_serveWriteV1_expected : fp_serveWriteV1 = "19822e2e6baa7130" := by rfl
+
+theorem fp_serveWriteV2_expected : fp_serveWriteV2 = "e25a6ea817584a8b" := by rfl
+
+theorem fp_bucket2dbrp_expected : fp_bucket2dbrp = "956090cf63962b0f" := by rfl
+
+theorem fp_convertToEpoch_expected : fp_convertToEpoch = "3c781f74aba9ed98" := by rfl
+
+theorem fp_ReadLinesBlockExt_expected : fp_ReadLinesBlockExt = "725afa6eecb83539" := by rfl
+
+theorem fp_streamContext_Read_expected : fp_streamContext_Read = "9d5e60e79a2f903a" := by rfl
+
+theorem fp_fixFields_expected : fp_fixFields = "0b0a0745c0678fed" := by rfl
+
+theorem fp_dropFieldByIndex_expected : fp_dropFieldByIndex = "9df661dcc5e3d3f4" := by rfl
+
+theorem fp_dropTagByIndex_expected : fp_dropTagByIndex = "6943c22d7e57c658" := by rfl
+
+theorem fp_routeAndMapOriginRows_expected : fp_routeAndMapOriginRows = "d3e29591fcb62f06" := by rfl
+
+theorem fp_writePointRows_expected : fp_writePointRows = "ff763042b6284406" := by rfl
+
+theorem fp_updateSchemaCheck_expected : fp_updateSchemaCheck = "efea4608adf81094" := by rfl
+
+theorem fp_updateSchemaIfNeeded_expected : fp_updateSchemaIfNeeded = "02d716dfb1f7dea3" := by rfl
+
+theorem fp_Data_UpdateSchema_expected : fp_Data_UpdateSchema = "44debe133eb743ae" := by rfl
+
+theorem fp_checkFieldsToCreate_expected : fp_checkFieldsToCreate = "7475e9830912d69d" := by rfl
+
+theorem fp_ValidMeasurementName_expected : fp_ValidMeasurementName = "bb22df57f8759e4f" := by rfl
+
+theorem fp_validName_expected : fp_validName = "e5f0a8fde8a81f19" := by rfl
+
+theorem fp_Row_CheckDuplicateTag_expected : fp_Row_CheckDuplicateTag = "a6b756749c70cbd1" := by rfl
+
+theorem fp_shardGroupDuration_expected : fp_shardGroupDuration = "a36b2210fa73134d" := by rfl
+
+theorem fp_CheckTime_expected : fp_CheckTime = "bde73937838cc609" := by rfl
+
+theorem unsupportedMstChars_expected : unsupportedMstChars = [44, 59, 47, 92] := by rfl
+
+theorem minNanoTime_expected : minNanoTimeGen = -9223372036854775806 := by rfl
+
+theorem maxNanoTime_expected : maxNanoTimeGen = 9223372036854775806 := by rfl
+
+/-- `serveWriteV1` reads `db` then `rp` and hands them on in this order, `serveWriteV2` reads
+`bucket`, `serveWrite` reads `precision`. -/
+theorem writeParamNames_expected : writeParamNames = ["db", "rp", "bucket", "precision"] := by rfl
+
 /-- `toCharType`: digits, `e E`, `.`, `+ -`, everything else illegal. -/
 theorem charTypeOf_expected : ∀ n, n < 256 → charTypeOf (UInt8.ofNat n) =
     (if 48 ≤ n ∧ n ≤ 57 then 0 else if n = 101 ∨ n = 69 then 1 else if n = 46 then 2 else if n = 43 ∨ n = 45 then 3 else 4) := by
